@@ -119,7 +119,7 @@ impl LabProp for P08 {
     }
     fn profiles(&self, _t: Tier) -> Vec<Profile> {
         vec![
-            Profile { choice: true, choice_weight: 8, skips: true, max_rules: 4, ..Profile::base("choice") },
+            Profile { choice: true, choice_weight: 8, skips: true, max_rules: 4, shuffle_decls: true, ..Profile::base("choice") },
             Profile { choice: true, choice_weight: 8, nodeops: true, asserts: true, skips: true, parts: true, ..Profile::base("choice-nodeops-asserts") },
             Profile { choice: true, choice_weight: 8, nodeops: true, pratt: true, actions: true, skips: true, ..Profile::base("choice-pratt-actions") },
             Profile { choice: true, choice_weight: 12, max_rules: 3, depth: 2, max_tokens: 3, ..Profile::base("choice-small") },
